@@ -310,10 +310,16 @@ class BodyError(Exception):
     pass
 
 
+def same_opts(a, b):
+    """dict equality that tells True from 1 (pep8space=1 is not pep8space=True)."""
+
+    return a.keys() == b.keys() and all(type(a[k]) is type(b[k]) and a[k] == b[k] for k in a)
+
+
 def check_model(model, where, site):
     got = FST.get_options()
 
-    if got != model:
+    if not same_opts(got, model):
         diff = {k: (got.get(k), model.get(k)) for k in set(got) | set(model) if got.get(k, '<absent>') != model.get(k, '<absent>')}
 
         raise Violation('C20.store', f'{where}: get_options() differs from the model (got, expected): {diff}', f'store:{site}')
@@ -386,7 +392,7 @@ def run_algebra(prog, model, ctx, flags, path='top'):
             ctx.count('edits')
 
             # the same edit under a model-equivalent fresh thread state must agree: per-call option == block == default
-            if model == library_defaults() and not o and res != baseline()[step[1]]:
+            if same_opts(model, library_defaults()) and not o and res != baseline()[step[1]]:
                 raise Violation('C20.leak', f'{where}: edit {EDITS[step[1]].__name__} with defaults restored gives {res}, baseline {baseline()[step[1]]}',
                                 f'leak:{EDITS[step[1]].__name__}')
 
@@ -634,7 +640,7 @@ def execute_threads(case, ctx):
             if isinstance(x.error, Violation):
                 raise x.error
 
-        if w.log[0] != ('start', defaults):
+        if not same_opts(w.log[0][1], defaults):
             raise Violation('C20.thread_start', f'thread {i} did not start from the library defaults: {w.log[0][1]} (main thread had set {case.get("main_pre")})', 'thread_start')
 
         if r.log != w.log:
